@@ -187,6 +187,20 @@ def jobs(tier):
             acc = [j for j in acc if j.name.startswith("fetch_pixel.") or
                    (f in QUICK_ACC_SCAN and j.name.split(".")[0] in ("store_frame", "store_value", "fetch_scanline"))]
         js += acc
+    # route D (lead): the macro-generated row loop closed by a loop invariant instead of unrolling: any width and x inside a
+    # 64-word row (a 4096-word row did not finish in 10 min: the bound is the row buffer, not an unwinding depth)
+    if tier != "quick":
+        for f in ("a8r8g8b8", "r5g6b5", "a8", "a4", "a1", "x4r4g4b4"):
+            tpl = {"assigns": "i, buffer, __CPROVER_object_whole(buffer)",
+                   "invariants": "0 <= i && i <= width && buffer == __CPROVER_loop_entry(buffer) + i && "
+                                 "(gk < i ==> __CPROVER_loop_entry(buffer)[gk] == SF_WIDEN_PIX(VF, SF_RAW(VF, bits, x + gk))) && "
+                                 "__CPROVER_loop_entry(buffer)[width] == __CPROVER_loop_entry(__CPROVER_loop_entry(buffer)[width])",
+                   "decreases": "width - i", "vars": ["i", "buffer", "width", "x", "bits", "gk=gk"], "headers": ["spec_format.h"]}
+            js.append(Job("rowD.fetch_scanline." + f, "C10/scanline_d.c", route="D", enforce="fetch_scanline_" + f,
+                          defines={"VF": f, "VD_STORE": 0, "VD_ROWWORDS": 64}, loops={"fetch_scanline_" + f: [tpl]}, kind="proof",
+                          functions=["fetch_scanline_" + f, "fetch_and_convert_pixel", "convert_pixel"],
+                          domain="enforced function contract + loop invariant: every width and x inside a 64-word row, every memory content, ghost pixel",
+                          timeout=2400, min_props=10))
     # formats outside MAKE_ACCESSORS (no codec spec here): scanline reader == single-pixel reader, relational (lead)
     for f in ("yuy2", "yv12", "a8r8g8b8_32_sRGB"):
         if tier == "quick" and f == "a8r8g8b8_32_sRGB":
